@@ -26,8 +26,9 @@ package sqlc
 //             wheel on a harness-owned ticker (cache.VerifC06SwapCleaner) and moves only by `tick <n>`.
 //   breaker   redis.Redis wraps every command in a circuit breaker; its rolling window reads timex, so the
 //             harness installs the virtual clock and advances it by 20 s per operation / tick (window 10 s):
-//             the breaker never sees more than one operation's failures (at most 5 per node: below its
-//             protection threshold).
+//             and by 20 s at every command that reaches a server: a breaker window never holds more than the
+//             requests in flight (at most 5, the cleaner's workers: below the breaker's protection threshold),
+//             so the breaker — whose drops are random — never drops.
 // After every operation every node's cache is dumped (node/key=value@ttl-ms, sorted).
 
 import (
@@ -189,6 +190,9 @@ func (h *c06Harness) hook(node int) server.Hook {
 		default:
 			return false
 		}
+		// every command gets its own instant: the cleaner runs up to 5 retries at once and many can be due at
+		// the same tick, but no breaker window (10 s) ever holds more than the 5 requests in flight
+		timex.VerifAdvance(20 * time.Second)
 		if h.next(node, name, keys) {
 			c.WriteError(c06Injected)
 			return true
